@@ -293,7 +293,15 @@ def label_term(t, pat):
 def explain_query(tmpl, pat, k):
     op = tmpl.ops[k - 1]; return (label_term(tuple_term(op[1]), pat), label_term(tuple_term(op[2]), pat))
 def asserted_equations(tmpl, pat, k):
-    return [(label_term(tuple_term(op[1]), pat), label_term(tuple_term(op[2]), pat), op[3] if len(op) > 3 else None) for op in tmpl.ops[:k] if op[0] == 'union']
+    out = [(label_term(tuple_term(op[1]), pat), label_term(tuple_term(op[2]), pat), op[3] if len(op) > 3 else None) for op in tmpl.ops[:k] if op[0] == 'union']
+    for op in tmpl.ops[:k]:
+        if op[0] == 'rewrite':       # rule applications are leaves justified by the rule's name
+            for r in op[1]:
+                if r[0] == 'rule': out.append((('__rule__', label_pat(tuple_term(r[2]), pat)), label_pat(tuple_term(r[3]), pat), r[1]))
+    return out
+def label_pat(p, pat):
+    if isinstance(p, str): return p
+    return tuple([p[0]] + [(str(_first_name_of_block(pat, pat[a])) if kind in 'sb' else (a if kind == 'p' else label_pat(a, pat))) for kind, a in zip(O.SIG[p[0]], p[1:])])
 
 def progress_ok(a, b):
     """documented direction: classes allocated never decrease; with that fixed, live classes never increase;
